@@ -4,6 +4,10 @@ proof:           lean/PPProofs/Props/C04.lean — the growth loop of Forward.par
                  the last element of a strictly growing chain of peek matches started from the failure seed
                  (growLoop_peek_spec, growLoop_round_grows), a recursion without base case fails with a ParseException in
                  the first round (lr_no_base); a non-recursive body yields its own outcome (lr_transparent_nonrec).
+                 lean/PPProofs/Props/C04Iter.lean — a DIRECT left-recursive rule E <<= (E + tail) | base equals the iterative
+                 grammar base (tail)*: for arbitrary base/tail functions at the growth-loop level (lr_direct_eq_iterative,
+                 _acts, _budget), and for the transcribed parser parseLR vs the model's parse of And[b, ZeroOrMore(And[t..])]
+                 under explicit flag / pre-parse hypotheses (parseLR_direct_eq_parse_iterative(_ws)_partial).
 correspondence:  the seed-growing model parseLR vs the real code under enable_left_recursion(None/1/2) on generated DIRECT
                  left-recursive rule sets (1-3 levels, several operators, Or/MatchFirst bodies, grouped/flat, '-', parens).
 search (oracle): the real LR parse vs the real parse of the mechanically derived repetition grammar (base (op tail)*):
@@ -23,20 +27,61 @@ META = dict(
          "whose ends strictly increase, and the next round gets no further or fails: 'the longest input obtainable by "
          "repeatedly growing the recursion from its base'), growLoop_round_grows, lr_no_base (no base case => "
          "ParseException at once, no unbounded recursion), lr_transparent_nonrec(_fail). The loop is structurally recursive "
-         "on a round budget (len+2 rounds suffice because ends strictly increase and are <= len+1). PARTIAL: equality with "
-         "the iterative grammar base (op tail)* is NOT a theorem - it is decided by the real-code oracle on generated direct "
+         "on a round budget. FULL STRENGTH at the growth-loop level (PPProofs/Props/C04Iter.lean): for the body of a DIRECT "
+         "left-recursive rule E <<= (E + tail) | base - lrBody = what MatchFirst[And[E, tail...], base] computes when the "
+         "nested E is a memo hit, generic in ARBITRARY sub-parser functions base/tail - the growth loop equals the iterative "
+         "grammar base (tail)* (iterRef: base, then tail greedily while it matches, shape of _MultipleMatch's loop, tokens "
+         "concatenated), for all base/tail, locations and budgets: lr_direct_eq_iterative (no actions), "
+         "lr_direct_eq_iterative_acts (do_actions=True, assuming action run and trial run agree on success and end "
+         "positions), lr_direct_eq_iterative_budget (any sufficient growth budget vs any sufficient repetition budget), "
+         "iterLoop_budget, iterLoop_no_hang, iterRef_plain. Hypotheses: a successful tail strictly advances (the property's "
+         "exclusion of empty repetition bodies), a base match ends at or after the location; fatal errors propagate "
+         "identically, a non-match of base is MatchFirst's (farther of the seed's and base's location). On the "
+         "TRANSCRIBED PARSER: parseLR_body_eq_lrBody (the body parseLR hands to the growth loop for a node table "
+         "E=Forward(m), m=MatchFirst[sq,b], sq=And[E,t...] IS lrBody with base/tail := the plain model parser on b / on "
+         "the rest of the And, up to ParseElementEnhance's location fix-up) and parseLR_direct_eq_iterative_partial "
+         "(hence parseLR on E = enhFix(iterRef over the plain model parser), for every table, input, fuel, location, "
+         "acts) under explicit hypotheses: no parse actions / results names on E, m, sq; b and t... in a closed "
+         "Forward-free part of the table (parseLR_frame: there parseLR = parse for every environment); the And's "
+         "pre-parse does not move from where the Forward's ended; no growth of E in progress at that location; the tail "
+         "strictly advances (dischargeable: tailOf_strict + parse_lit1_strict when it starts with a one-character "
+         "operator literal); with actions: trial/action agreement. And both halves together, "
+         "parseLR_direct_eq_parse_iterative_partial: parseLR on E = the model's parse of the iterative grammar "
+         "I=And[b,Z], Z=ZeroOrMore(R), R=And[t...] in the same table (parse_I_step, manyLoop_eq_iterLoop: _MultipleMatch's "
+         "loop is iterLoop), same fuel, tokens AND end location AND failures. PARTIAL (hence the names _partial): that "
+         "last theorem assumes that the pre-parse of Z and R does not move and that b / the first tail element ignore "
+         "their callPreParse flag (no whitespace/ignorables before the operator at the positions visited), that matches "
+         "end inside the input, and that the base's failure is a ParseException at or after the location. The "
+         "whitespace hypotheses cannot just be dropped: exG2_end_differs (Lean, replayed on the real code) shows LR "
+         "grammar and iterative grammar END at different offsets on '1 ' (ZeroOrMore returns the pre-parsed location when "
+         "it matches nothing) while the tokens agree. parseLR_direct_eq_parse_iterative_ws_partial is the "
+         "whitespace-tolerant version: Z and R may skip whitespace, provided the first tail element skips at least as "
+         "much itself (the situation of the live objects) - then SAME TOKENS and same failures, the end differing only "
+         "by that skipped whitespace when the repetition matches nothing (SameButEnd; parse_I_step_ws). Still assumed "
+         "there: b ignores its callPreParse flag at the location, ends inside the input, base failure at/after the "
+         "location. NOT covered by any theorem: rules with actions/names on E/m/sq (or on I/Z/R), Forwards inside "
+         "base/tail (parenthesised recursion), ignorables. Equality of the real LR parse with the real parse of the derived repetition grammar (tokens) stays "
+         "decided by the real-code oracle on generated direct "
          "left-recursive rule sets; indirect / mutual left recursion is the registered finding indirect_left_recursion "
          "(the real code returns the base case only) and is kept out of the generators.",
     note="Trusted: Lean kernel; axioms propext/Classical.choice/Quot.sound; the seed-growing model (in-growth memo entries as "
          "an environment; finished Forwards re-evaluated, so the memo capacity does not occur) validated differentially "
          "against the real LR mode with capacities None/1/2 on every run.",
-    technique="Lean 4 proof (growth-loop chain invariant) over a transcribed model; differential correspondence in LR mode; "
+    technique="Lean 4 proof (growth-loop chain invariant; lock-step simulation growth loop = repetition loop) over a "
+              "transcribed model; differential correspondence in LR mode; "
               "LR-vs-iterative-grammar oracle on the real code",
     design="§5 C04",
 )
 
 THEOREMS = ["PP.Parse.growLoop_peek_spec", "PP.Parse.growLoop_round_grows", "PP.Parse.lr_no_base",
-            "PP.Parse.lr_transparent_nonrec", "PP.Parse.lr_transparent_nonrec_fail"]
+            "PP.Parse.lr_transparent_nonrec", "PP.Parse.lr_transparent_nonrec_fail",
+            "PP.Parse.lr_direct_eq_iterative", "PP.Parse.lr_direct_eq_iterative_acts",
+            "PP.Parse.lr_direct_eq_iterative_budget", "PP.Parse.iterLoop_budget", "PP.Parse.iterLoop_no_hang",
+            "PP.Parse.iterRef_plain", "PP.Parse.growLoop_lrBody_loop",
+            "PP.Parse.parseLR_frame", "PP.Parse.parseLR_body_eq_lrBody", "PP.Parse.parseLR_direct_eq_iterative_partial",
+            "PP.Parse.growLoop_congr", "PP.Parse.growLoop_enhFix", "PP.Parse.tailOf_strict", "PP.Parse.parse_lit1_strict",
+            "PP.Parse.parseLR_direct_eq_parse_iterative_partial", "PP.Parse.parse_I_step", "PP.Parse.manyLoop_eq_iterLoop",
+            "PP.Parse.exG2_end_differs", "PP.Parse.parseLR_direct_eq_parse_iterative_ws_partial", "PP.Parse.parse_I_step_ws"]
 
 CAPS = [None, 1, 2, 4]
 
@@ -167,7 +212,7 @@ def in_context(prog, root, it, itr, inputs, meta):
 
 def run(ctx):
     common.import_pyparsing()
-    ctx.proof_leg("PPProofs.Props.C04", THEOREMS)
+    ctx.proof_leg("PPProofs.Props.C04", THEOREMS, extra_modules=("PPProofs.Props.C04Iter",))
     ctx.rule.append("direct left-recursive rule sets from harness/gen_lr.py (1-3 levels, 1-2 operators per level, MatchFirst/Or "
                     "bodies, grouped/flat, '+'/'-' after the operator, optional parenthesised recursion) x 10 expression strings "
                     "(well-formed, trailing/leading operator, junk, empty, padded) x capacities None/1/2/4; non-trivial = distinct "
